@@ -521,7 +521,68 @@ func (s *stallSrc) Read(p []byte) (int, error) {
 	return n, nil
 }
 
-// yDstBuf is a destination that yields to the scheduler before every write.// yDstBuf is a destination that yields to the scheduler before every write.
+// cancelledDialConn answers the handshake with a valid response and a first frame in the same
+// segment; while that read is in flight the caller's context is cancelled, and the read only
+// returns once the dialer's watcher has reacted (it moves the deadline into the past).
+type cancelledDialConn struct {
+	l      logger
+	req    bytes.Buffer
+	resp   []byte
+	off    int
+	cancel context.CancelFunc
+	armed  chan struct{}
+	closed bool
+}
+
+func (c *cancelledDialConn) Write(p []byte) (int, error) { c.l.Yield(); return c.req.Write(p) }
+func (c *cancelledDialConn) Read(p []byte) (int, error) {
+	c.l.Yield()
+	if c.resp == nil {
+		c.resp = append([]byte("HTTP/1.1 101 Switching Protocols\r\nUpgrade: websocket\r\nConnection: Upgrade\r\nSec-WebSocket-Accept: "+hs.Accept(hs.KeyOf(c.req.Bytes()))+"\r\n\r\n"), mkFrame(1, true, false, []byte("early"))...)
+		c.cancel()
+		<-c.armed
+	}
+	if c.off >= len(c.resp) {
+		return 0, io.EOF
+	}
+	n := copy(p, c.resp[c.off:])
+	c.off += n
+	return n, nil
+}
+func (c *cancelledDialConn) Close() error         { c.closed = true; return nil }
+func (c *cancelledDialConn) LocalAddr() net.Addr  { return &net.TCPAddr{} }
+func (c *cancelledDialConn) RemoteAddr() net.Addr { return &net.TCPAddr{} }
+func (c *cancelledDialConn) SetDeadline(t time.Time) error {
+	if !t.IsZero() && t.Before(time.Now()) {
+		select {
+		case c.armed <- struct{}{}:
+		default:
+		}
+	}
+	return nil
+}
+func (c *cancelledDialConn) SetReadDeadline(t time.Time) error  { return c.SetDeadline(t) }
+func (c *cancelledDialConn) SetWriteDeadline(t time.Time) error { return nil }
+
+// cancelledDialSession: a dial whose context ends while the response arrives. Whatever Dial
+// returns, the application does what the documentation asks: a reader that came back goes to
+// ws.PutReader. Afterwards it dials again, normally.
+func cancelledDialSession(tag byte) func(l logger) {
+	return func(l logger) {
+		ctx, cancel := context.WithCancel(context.Background())
+		defer cancel()
+		cc := &cancelledDialConn{l: l, cancel: cancel, armed: make(chan struct{}, 4)}
+		d := ws.Dialer{NetDial: func(context.Context, string, string) (net.Conn, error) { return cc, nil }}
+		_, br, _, err := d.Dial(ctx, "ws://example.com/chat")
+		l.Logf("dial with a context cancelled mid-response: err=%v reader=%v conn closed=%v", err, br != nil, cc.closed)
+		if br != nil {
+			ws.PutReader(br)
+		}
+		clientSession(tag, 30)(l)
+	}
+}
+
+// yDstBuf is a destination that yields to the scheduler before every write.// yDstBuf is a destination that yields to the scheduler before every write.// yDstBuf is a destination that yields to the scheduler before every write.
 type yDstBuf struct {
 	b *bytes.Buffer
 	l logger
@@ -553,6 +614,7 @@ func sessions() map[string]session {
 	add("S5", helperSession(4, flate.BestSpeed, 400))
 	add("S5b", helperSession(5, flate.HuffmanOnly, 400))
 	add("S6", textSession(6))
+	add("S7", cancelledDialSession(8))
 	add("S6b", textSession(7))
 	return m
 }
@@ -780,7 +842,7 @@ func main() {
 			t.Outcome("deterministic")
 			t.Note("each session alone: same log on the non-recycling pool twice and on the poisoning LIFO pool")
 		})
-		mixes2 := [][]string{{"S2s", "S2t"}, {"S4a", "S4b"}, {"S1", "S2"}, {"S1", "S1b"}, {"S2", "S2b"}, {"S1", "S3"}, {"S2", "S3"}, {"S3", "S3b"}, {"S1L", "S2L"}, {"S1L", "S1"}, {"S3L", "S2"}, {"S3L", "S3"}, {"S3", "S5"}, {"S5", "S5b"}, {"S6", "S6b"}, {"S1", "S6"}}
+		mixes2 := [][]string{{"S2s", "S2t"}, {"S4a", "S4b"}, {"S1", "S2"}, {"S1", "S1b"}, {"S2", "S2b"}, {"S1", "S3"}, {"S2", "S3"}, {"S3", "S3b"}, {"S1L", "S2L"}, {"S1L", "S1"}, {"S3L", "S2"}, {"S3L", "S3"}, {"S3", "S5"}, {"S5", "S5b"}, {"S6", "S6b"}, {"S1", "S6"}, {"S7", "S2"}}
 		mixes3 := [][]string{{"S1", "S2", "S3"}, {"S1", "S1b", "S2"}, {"S2", "S2b", "S3"}}
 		r.Part("E1-two-sessions-preemption-bounded", func(t *explore.T) {
 			b := t.Pick(2, 3)
